@@ -15,9 +15,41 @@ use std::path::{Component, Path, PathBuf};
 type RS = Vec<(PathBuf, PathBuf, CovResult)>;
 
 const DIRS: &[&str] = &["", "", "src", "src/lib", "deep/er/tree", "deep/er", "naïve", "日本", "with space", "lib"];
+/// directories named like a page FILE (`<file>.html`) or like an index file (second review, item 20);
+/// used by the html cases only, one level deep (one level deeper `create_parent` panics and
+/// `output_html` calls `process::exit`, which would end the harness)
+const HTML_DIRS: &[&str] = &["a.c.html", "src/main.c.html", "index.html", "lib/index.html", "src/lib/index.html"];
+pub const KNOWN_PAGE_DIR: &str = "C03-html-page-dir-collision";
+pub const KNOWN_INDEX_DIR: &str = "C03-html-dir-named-index-html";
 const NAMES: &[&str] = &[
     "main.c", "util.c", "a.c", "x.rs", "Makefile", ".hidden", "ünï.c", "語.c", "index", "index.html", "f.tar.gz", "top.js", "y.rs", "mod.rs",
+    // names a URI treats specially (second review, item 21): the index rows link to them unencoded
+    "p%41.c", "pA.c", "x#y.c", "q?z.c",
+    // a table-cell separator inside a name (item 36): markdown does not escape it
+    "a|b.c",
 ];
+pub const KNOWN_LINKS: &str = "C03-html-links-not-urlencoded";
+
+/// what a user agent and a file server make of a relative reference `./…` (RFC 3986): cut at the
+/// first `#` (fragment), then at the first `?` (query), the path percent-decoded
+fn served_rel(url: &str) -> String {
+    let p = url.split('#').next().unwrap_or("");
+    let p = p.split('?').next().unwrap_or("");
+    let p = p.strip_prefix("./").unwrap_or(p).as_bytes();
+    let hv = |b: u8| (b as char).to_digit(16);
+    let mut out = vec![];
+    let mut i = 0;
+    while i < p.len() {
+        if p[i] == b'%' && i + 2 < p.len() + 0 && hv(p[i + 1]).is_some() && hv(p[i + 2]).is_some() {
+            out.push((hv(p[i + 1]).unwrap() * 16 + hv(p[i + 2]).unwrap()) as u8);
+            i += 3;
+        } else {
+            out.push(p[i]);
+            i += 1;
+        }
+    }
+    String::from_utf8_lossy(&out).to_string()
+}
 /// names that are also directory names of DIRS: a file named like a sibling directory
 const CLASH: &[&str] = &["src", "lib", "deep/er", "src/lib"];
 
@@ -134,7 +166,7 @@ fn canon_coveralls(v: &Value) -> Result<String, String> {
                         format!("{}:{}:{}", hex(n.as_bytes()), f["start"].as_u64().ok_or("no start")?, if f["exec"].as_bool().ok_or("no exec")? { 1 } else { 0 }),
                     ));
                 }
-                v.sort();
+                // document order: the model lists the functions by name itself (`sorted_functions`)
                 v.into_iter().map(|x| x.1).collect::<Vec<_>>().join(",")
             }
         };
@@ -315,7 +347,13 @@ fn parse_ranges(text: &str) -> Result<Vec<(u32, u32)>, String> {
 fn dec_markdown(text: &str) -> Result<Vec<(String, u64, u64, Vec<(u32, u32)>, String)>, String> {
     let mut rows = vec![];
     for l in text.lines().filter(|l| l.starts_with('|')).skip(2) {
-        let cells: Vec<String> = l.trim_matches('|').split('|').map(|c| c.trim().to_string()).collect();
+        // a `|` in a path is NOT escaped by the writer (a generic markdown renderer then sees five cells:
+        // second review, item 36); the last three cells never contain one, so a reader that knows the
+        // table takes them from the right and the rest is the file cell
+        let inner = l.strip_prefix('|').and_then(|x| x.strip_suffix('|')).ok_or("row without outer pipes")?;
+        let mut right: Vec<&str> = inner.rsplitn(4, '|').collect();
+        right.reverse();
+        let cells: Vec<String> = right.iter().map(|c| c.trim().to_string()).collect();
         if cells.len() != 4 {
             return Err(format!("row with {} cells", cells.len()));
         }
@@ -413,7 +451,9 @@ fn observe_html(outd: &Path) -> Result<HtmlObs, String> {
             continue;
         }
         let text = std::fs::read_to_string(outd.join(&f)).map_err(|e| e.to_string())?;
-        if f == "index.html" || f.ends_with("/index.html") {
+        // an index page – or the PAGE of a source file named `index`, which stays a page when the index
+        // of its directory is never written (a directory named `index.html` at the root: no index at all)
+        if (f == "index.html" || f.ends_with("/index.html")) && text.contains("<thead>") {
             let loc = f.strip_suffix("index.html").unwrap().trim_end_matches('/').to_string();
             obs.indexes.insert(loc, dec_index(&text)?);
         } else {
@@ -625,6 +665,7 @@ pub fn run(rep: &mut Report) {
                             rep.fail("oracle", None, format!("c03.docs.markdown: {}", e), case_json("c03.docs.markdown", &rs, json!(null)));
                         }
                         rep.count_n("docs.markdown.ranges", rows.iter().map(|r| r.3.len() as u64).sum());
+                        rep.count_n("docs.markdown.row_with_a_pipe_in_the_name(5_cells_for_a_renderer)", rows.iter().filter(|r| r.0.contains('|')).count() as u64);
                         format!(
                             "ok {}",
                             rows.iter()
@@ -644,6 +685,18 @@ pub fn run(rep: &mut Report) {
         // html (every 3rd set) -----------------------------------------------------------------
         if i % 3 == 0 {
             html_case(rep, &mut rng, &rs, &mut reqs, &mut impl_ans, &mut cases);
+        }
+        if i == 0 {
+            // the closed witnesses of Props/C03HtmlDisk.lean / the probes of the second review (item 20)
+            for paths in [vec!["a.c", "a.c.html/z.c"], vec!["a.c.html/z.c", "a.c"], vec!["index.html/z.c", "lib/y.c"], vec!["lib/index.html/a.c", "lib/y.rs", "top.c"]] {
+                let set: RS = paths.iter().map(|p| {
+                    let mut c = CovResult::default();
+                    c.lines.insert(2, 7);
+                    (rep.workdir.join("docs_html_src").join(p), PathBuf::from(p), c)
+                }).collect();
+                let srcs: Vec<Option<Vec<u8>>> = paths.iter().map(|_| Some(b"int a;\nint b;\n".to_vec())).collect();
+                html_run(rep, &set, &srcs, Some((&mut reqs, &mut impl_ans, &mut cases)));
+            }
         }
     }
 
@@ -705,6 +758,26 @@ fn gen_source(rng: &mut Rng, min_lines: usize, k: usize) -> Vec<u8> {
 
 fn html_case(rep: &mut Report, rng: &mut Rng, rs: &RS, reqs: &mut Vec<String>, impl_ans: &mut Vec<String>, cases: &mut Vec<Value>) {
     let root = rep.workdir.join("docs_html_src");
+    // a third of the html cases: source directories named like a page file / an index file, often
+    // beside the file whose page that is (before or after it: the order decides which page survives)
+    let mut rs: RS = rs.clone();
+    if rng.chance(1, 3) {
+        for _ in 0..rng.range(1, 3) {
+            let d = *rng.pick(HTML_DIRS);
+            let rel = format!("{}/{}", d, rng.pick(NAMES));
+            let extra = (PathBuf::from(format!("/src_root/{}", rel)), PathBuf::from(&rel), gen_cov(rng, false));
+            let file = d.strip_suffix(".html").filter(|f| !f.ends_with("index")).map(|f| f.to_string());
+            let at = rng.below(rs.len() as u64 + 1) as usize;
+            rs.insert(at, extra);
+            if let Some(f) = file {
+                if rng.chance(2, 3) {
+                    let at = rng.below(rs.len() as u64 + 1) as usize;
+                    rs.insert(at, (PathBuf::from(format!("/src_root/{}", f)), PathBuf::from(&f), gen_cov(rng, false)));
+                }
+            }
+        }
+    }
+    let rs = &rs;
     let mut set: RS = vec![];
     let mut srcs: Vec<Option<Vec<u8>>> = vec![];
     let mut seen = BTreeSet::new();
@@ -765,6 +838,21 @@ fn html_run(rep: &mut Report, set: &RS, srcs: &[Option<Vec<u8>>], mut sink: Opti
                 "undecodable".into()
             }
             Ok(obs) => {
+                // the pages the result set asks for (relative rel path, readable source)
+                let all_pages: Vec<String> = set.iter().zip(srcs.iter()).filter(|((_, rel, _), b)| rel.is_relative() && b.is_some()).map(|((_, rel, _), _)| page_path(rel.to_str().unwrap())).collect();
+                // matcher of C03-html-page-dir-collision: the path `p` (a page file, or a directory an index
+                // is written into) cannot exist beside another page: it is a proper prefix (directory) of
+                // another page's path, or another page's FILE is a proper prefix of it
+                let page_dir_clash = |p: &str| all_pages.iter().any(|q| q.starts_with(&format!("{}/", p)) || p.starts_with(&format!("{}/", q)) || (p == q.as_str() && false));
+                // matcher of C03-html-dir-named-index-html: `<dir>/index.html` is a directory of some page
+                let index_is_dir = |dir: &str| { let ix = if dir.is_empty() { "index.html/".to_string() } else { format!("{}/index.html/", dir) }; all_pages.iter().any(|q| q.starts_with(&ix)) };
+                let no_index_at_all = index_is_dir("") && obs.indexes.is_empty();
+                if all_pages.iter().any(|p| page_dir_clash(p)) {
+                    rep.count("docs.html.page_file_is_a_directory_of_another_page");
+                }
+                if set.iter().any(|r| r.1.to_str().unwrap().split('/').rev().skip(1).any(|c| c == "index.html")) {
+                    rep.count("docs.html.source_directory_named_index.html");
+                }
                 // oracle: page iff relative and readable, at the place a reader expects, rows = counts
                 let mut expected_pages = BTreeSet::new();
                 let mut root_files = false;
@@ -820,7 +908,10 @@ fn html_run(rep: &mut Report, set: &RS, srcs: &[Option<Vec<u8>>], mut sink: Opti
                             // matcher of C03-html-index-named-source: the source file is named `index`, its page
                             // `<dir>/index.html` is the file the directory (or global) index is written to afterwards
                             let named = rels.rsplit('/').next() == Some("index") && obs.indexes.contains_key(rels.rsplit_once('/').map(|x| x.0).unwrap_or(""));
-                            rep.fail("oracle", if named { Some("C03-html-index-named-source") } else { None }, format!("c03.docs.html: page of {:?} missing or its rows differ from (count | not instrumented) per source line", rel), case_json("c03.docs.html", &set, detail.clone()));
+                            // the page is MISSING (not wrong) and its path clashes with another page's
+                            let clash = !obs.pages.contains_key(&pp) && page_dir_clash(&pp);
+                            let f = if named { Some("C03-html-index-named-source") } else if clash { Some(KNOWN_PAGE_DIR) } else { None };
+                            rep.fail("oracle", f, format!("c03.docs.html: page of {:?} missing or its rows differ from (count | not instrumented) per source line", rel), case_json("c03.docs.html", &set, detail.clone()));
                         }
                         let (parent, fname) = match rels.rsplit_once('/') { Some((p, f)) => (p.to_string(), f.to_string()), None => (String::new(), rels.to_string()) };
                         root_files |= parent.is_empty();
@@ -828,7 +919,12 @@ fn html_run(rep: &mut Report, set: &RS, srcs: &[Option<Vec<u8>>], mut sink: Opti
                         let listed: Vec<&String> = obs.indexes.iter().filter(|(_, (k, rows))| k == "File" && rows.iter().any(|r| r.1 == fname)).map(|(loc, _)| loc).collect();
                         let in_parent = obs.indexes.get(&parent).map(|(k, rows)| if k == "File" { rows.iter().filter(|r| r.1 == fname).count() } else { 0 }).unwrap_or(0);
                         if in_parent != 1 {
-                            rep.fail("oracle", None, format!("c03.docs.html: {:?} is listed {} times in the index of its directory", rel, in_parent), case_json("c03.docs.html", &set, detail.clone()));
+                            // the index of the directory is MISSING because `<parent>/index.html` is a directory
+                            // (or, at the root, `gen_index` returned before any directory index), or because the
+                            // directory `<parent>` is (below) a page file
+                            let missing = !obs.indexes.contains_key(&parent);
+                            let f = if missing && (index_is_dir(&parent) || no_index_at_all) { Some(KNOWN_INDEX_DIR) } else if missing && !parent.is_empty() && all_pages.iter().any(|q| parent == *q || parent.starts_with(&format!("{}/", q))) { Some(KNOWN_PAGE_DIR) } else { None };
+                            rep.fail("oracle", f, format!("c03.docs.html: {:?} is listed {} times in the index of its directory", rel, in_parent), case_json("c03.docs.html", &set, detail.clone()));
                         }
                         let _ = listed;
                         // the directory is listed in the global index
@@ -837,7 +933,8 @@ fn html_run(rep: &mut Report, set: &RS, srcs: &[Option<Vec<u8>>], mut sink: Opti
                             // matcher of C03-html-root-index-overwritten: some page lives at the root, so the index of
                             // directory "" was written over the global index.html
                             let named = obs.indexes.get("").map(|(k, _)| k == "File").unwrap_or(false);
-                            rep.fail("oracle", if named { Some("C03-html-root-index-overwritten") } else { None }, format!("c03.docs.html: directory {:?} is listed {} times in the global index", parent, in_global), case_json("c03.docs.html", &set, detail.clone()));
+                            let f = if named { Some("C03-html-root-index-overwritten") } else if no_index_at_all { Some(KNOWN_INDEX_DIR) } else { None };
+                            rep.fail("oracle", f, format!("c03.docs.html: directory {:?} is listed {} times in the global index", parent, in_global), case_json("c03.docs.html", &set, detail.clone()));
                         }
                     }
                 }
@@ -849,11 +946,25 @@ fn html_run(rep: &mut Report, set: &RS, srcs: &[Option<Vec<u8>>], mut sink: Opti
                         continue;
                     }
                     for (url, name) in rows {
-                        let target = format!("{}{}", if loc.is_empty() { String::new() } else { format!("{}/", loc) }, url.trim_start_matches("./"));
+                        // where the link LEADS: resolved as a URI reference, not joined as a string
+                        let in_loc = |n: &str| format!("{}{}", if loc.is_empty() { String::new() } else { format!("{}/", loc) }, n);
+                        let target = in_loc(&served_rel(url));
+                        let own_page = in_loc(&format!("{}.html", name));
                         rep.count("docs.html.index_link");
-                        if !obs.pages.contains_key(&target) {
+                        let special = name.contains('%') || name.contains('#') || name.contains('?');
+                        if special {
+                            rep.count("docs.html.index_link.name_with_%#?");
+                        }
+                        if target != own_page {
+                            // matcher of C03-html-links-not-urlencoded: the name has one of % # ? and went into the
+                            // href as it is
+                            let f = if special && *url == format!("./{}.html", name) { Some(KNOWN_LINKS) } else { None };
+                            rep.fail("oracle", f, format!("c03.docs.html: the index row {:?} of directory {:?} has href {:?}, which leads to {:?}, not to the page {:?} of that file", name, loc, url, target, own_page), case_json("c03.docs.html", &set, detail.clone()));
+                        } else if !obs.pages.contains_key(&target) {
                             let named = name == "index" && url.trim_start_matches("./") == "index.html";
-                            rep.fail("oracle", if named { Some("C03-html-index-named-source") } else { None }, format!("c03.docs.html: the index row {:?} of directory {:?} links to {:?}, which is not a page file", name, loc, target), case_json("c03.docs.html", &set, detail.clone()));
+                            let clash = all_pages.contains(&target) && page_dir_clash(&target);
+                            let f = if named { Some("C03-html-index-named-source") } else if clash { Some(KNOWN_PAGE_DIR) } else { None };
+                            rep.fail("oracle", f, format!("c03.docs.html: the index row {:?} of directory {:?} links to {:?}, which is not a page file", name, loc, target), case_json("c03.docs.html", &set, detail.clone()));
                         }
                     }
                 }
